@@ -1,0 +1,38 @@
+//! Verification seams of the client (cargo feature `verif`, off by default): a transport that diverts every request
+//! to a harness-owned network, and a back-off clock that follows tokio's (pausable) clock.
+
+use std::future::Future;
+use std::pin::Pin;
+use std::sync::{Arc, RwLock};
+
+use crate::net::http::RequestError;
+
+pub type NetFuture = Pin<Box<dyn Future<Output = Result<reqwest::Response, RequestError>> + Send>>;
+
+/// The simulated network: receives (tower address, endpoint, method, JSON body) and produces what `reqwest` would.
+pub trait SimNet: Send + Sync {
+    fn request(&self, net_addr: String, endpoint: String, method: String, body: Option<serde_json::Value>) -> NetFuture;
+}
+
+static SIMNET: RwLock<Option<Arc<dyn SimNet>>> = RwLock::new(None);
+
+pub fn set_simnet(net: Option<Arc<dyn SimNet>>) {
+    *SIMNET.write().unwrap_or_else(|e| e.into_inner()) = net;
+}
+
+pub(crate) fn simnet() -> Option<Arc<dyn SimNet>> {
+    SIMNET.read().unwrap_or_else(|e| e.into_inner()).as_ref().cloned()
+}
+
+/// Clock for `backoff` that reads tokio's clock, so a paused runtime controls the retry strategy's elapsed time too.
+#[derive(Debug, Default, Clone)]
+pub struct TokioClock;
+
+impl backoff::Clock for TokioClock {
+    fn now(&self) -> std::time::Instant {
+        tokio::time::Instant::now().into_std()
+    }
+}
+
+/// Same type the retrier uses, parametrised with [TokioClock].
+pub type ExponentialBackoff = backoff::exponential::ExponentialBackoff<TokioClock>;
